@@ -221,6 +221,18 @@ def dispatch (op : String) (a : Array String) : Option String :=
         | .pipe _ => none
       some (" ".intercalate ([toString r.main.dp, "|"] ++ (r.slurries.map fun e => toString e.1 ++ ":" ++ toString e.2.p ++ ":" ++ toString e.2.dp) ++ ["|"] ++ pumps))
     | _, _ => none
+  | "spec.bindpumps" =>
+    -- spec.bindpumps <code of the pipeline slurry's diameter> then the sections (pumps hold some other slurry, coded 0:0, before the call);
+    -- answer: p:dp of the slurry every pump holds after the binding step of calc_system_head | number of sections
+    if a.size < 1 then none else
+    match (a[0]!).toNat?, parsePSecs (a.toList.drop 1) [] with
+    | some d0, some secs =>
+      let r := Spec.Pipe.bindPumps { secs := secs, main := { p := 1, dp := d0 }, slurries := [] }
+      let pumps := r.secs.filterMap fun s => match s with
+        | .pump sl => some (toString sl.p ++ ":" ++ toString sl.dp)
+        | .pipe _ => none
+      some (" ".intercalate (pumps ++ ["|", toString r.secs.length]))
+    | _, _ => none
   | "spec.checkvalue" =>
     -- spec.checkvalue <what float(text) gives: none | n/d> <min> <max> <prev>   (exact rationals of the doubles involved); answer: which of the two
     -- texts is left in the box (T = the entry, P = the previous value re-rendered) and the value the model gets
